@@ -13,7 +13,22 @@ import (
 
 func init() { suites["calls"] = suiteCalls }
 
-var outputMethods = []string{"StringUp", "StringDown", "StringUpWithVersion", "StringDownWithVersion", "HashValue", "MermaidJsErd", "MermaidJsLive", "ArvoSchema"}
+var outputMethods = []string{"StringUp", "StringDown", "StringUpWithVersion", "StringDownWithVersion", "HashValue", "MermaidJsErd", "MermaidJsLive", "ArvoSchema",
+	// the exporters with a table filter that selects the table declared last (seeded change C08-f: selecting in place)
+	"MermaidJsErd-last", "MermaidJsLive-last", "ArvoSchema-last"}
+
+// the table the filtered exporter calls select: the one the new side declares last (set by `build`)
+var filterTable string
+
+func lastTable(ss []Stmt) string {
+	t := ""
+	for _, s := range ss {
+		if s.Kind == "createTable" {
+			t = s.T
+		}
+	}
+	return t
+}
 
 func callOutput(s *sqlize.Sqlize, m string) string {
 	return guard(func() string {
@@ -34,6 +49,12 @@ func callOutput(s *sqlize.Sqlize, m string) string {
 			return s.MermaidJsLive()
 		case "ArvoSchema":
 			return strings.Join(s.ArvoSchema(), "\n")
+		case "MermaidJsErd-last":
+			return s.MermaidJsErd(filterTable)
+		case "MermaidJsLive-last":
+			return s.MermaidJsLive(filterTable)
+		case "ArvoSchema-last":
+			return strings.Join(s.ArvoSchema(filterTable), "\n")
 		}
 		return "?"
 	})
@@ -73,6 +94,7 @@ func suiteCalls(c *ctx) {
 	build := func(cfg runCfg, oldS, newS []Stmt, diffed bool, pre []string) *sqlize.Sqlize {
 		so, sn := cfg.newSqlize(), cfg.newSqlize()
 		st := sqlStyle{dialect: cfg.dialect}
+		filterTable = lastTable(newS)
 		load(so, cfg, st, oldS)
 		load(sn, cfg, st, newS)
 		for i, m := range pre { // output calls before Diff, alternating between the two sides
